@@ -495,14 +495,24 @@ def classic_case(ctx, inst, P, m, path, who):
         ctx.check(ct == exp, "spec:%s:%s:ciphertext-differs" % (name, mode), "ciphertext differs from the mode's specification",
                   lambda: w({"diff": A.first_diff(ct, exp, bs)}))
     else:
-        ctx.check(ct == exp, "nonce-attr:" + mode,
-                  "re-encrypting with the exposed (library-chosen) %s does not give the library's ciphertext" % attr,
+        # is the exposed value the one that was used?  A second library object GIVEN that value must reproduce the
+        # ciphertext; only then is a disagreement with the model a defect of the cipher/mode rather than of the attribute
+        try:
+            twin = _lib_classic(inst, P, used=used).encrypt(m)
+        except Exception as e:      # noqa
+            twin = None
+        attr_ok = ctx.check(twin == ct, "nonce-attr:" + mode,
+                            "a second cipher object given the exposed (library-chosen) %s does not reproduce the ciphertext" % attr,
+                            lambda: w({"attribute": used.hex(), "ciphertext": hx(ct), "twin": hx(twin)}))
+        key3 = "spec:%s:%s:ciphertext-differs" % (name, mode) if attr_ok else "nonce-attr:" + mode
+        ctx.check(ct == exp, key3,
+                  "encrypting with the exposed (library-chosen) %s under the specification does not give the library's ciphertext" % attr,
                   lambda: w({"attribute": used.hex(), "diff": A.first_diff(ct, exp or b"", bs)}))
         try:
             back = _ref_classic(oc, P, used, ct, True)
         except Exception as e:      # noqa
             back = None
-        ctx.check(back == m, "nonce-attr:" + mode,
+        ctx.check(back == m, key3,
                   "a conforming peer given the exposed (library-chosen) %s does not recover the message" % attr,
                   lambda: w({"attribute": used.hex(), "ciphertext": hx(ct)}))
     # (2) inversion through the library
@@ -682,14 +692,26 @@ def aead_case(ctx, inst, mode, nonce, mac_len, parts, m, path, api="one-shot", e
         ctx.check(tag == exp_tag, "spec:%s:%s:tag-differs" % (name, mode), "MAC tag differs from the mode's specification",
                   lambda: w({"got_tag": tag.hex(), "expected_tag": exp_tag.hex()}))
     else:
-        ctx.check(ct == exp_ct and tag == exp_tag, "nonce-attr:" + mode,
-                  "sealing again with the exposed (library-chosen) nonce does not give the library's ciphertext and tag",
+        try:
+            t = _aead_lib(inst, mode, used, mac_len, extra)
+            for p in parts:
+                t.update(p)
+            twin = t.encrypt_and_digest(m)
+        except Exception as e:      # noqa
+            twin = None
+        attr_ok = ctx.check(twin == (ct, tag), "nonce-attr:" + mode,
+                            "a second cipher object given the exposed (library-chosen) nonce does not reproduce ciphertext and tag",
+                            lambda: w({"attribute": used.hex(), "ciphertext": hx(ct), "tag": tag.hex(), "twin": repr(twin)[:300]}))
+        key3 = ("spec:%s:%s:" % (name, mode), "ciphertext-differs", "tag-differs") if attr_ok else ("nonce-attr:" + mode, "", "")
+        ctx.check(ct == exp_ct, key3[0] + key3[1], "sealing with the exposed (library-chosen) nonce under the specification does not give the library's ciphertext",
+                  lambda: w({"attribute": used.hex(), "diff": A.first_diff(ct, exp_ct or b"", bs)}))
+        ctx.check(tag == exp_tag, key3[0] + key3[2], "sealing with the exposed (library-chosen) nonce under the specification does not give the library's tag",
                   lambda: w({"attribute": used.hex(), "got_tag": tag.hex(), "expected_tag": hx(exp_tag)}))
         try:
             back, btag = _aead_ref(mode, inst, path, used, mac_len, parts, ct, tag, True)
         except Exception as e:      # noqa
             back = btag = None
-        ctx.check(back == m and btag == tag, "nonce-attr:" + mode,
+        ctx.check(back == m and btag == tag, key3[0] + key3[1],
                   "a conforming peer given the exposed (library-chosen) nonce does not recover the message / accept the tag",
                   lambda: w({"attribute": used.hex(), "ciphertext": hx(ct), "tag": tag.hex(), "peer_tag": hx(btag)}))
     try:
@@ -968,10 +990,17 @@ def salsa_case(ctx, key, nonce, m):
         ctx.count("libchosen_total")
         used = bytes(attr) if attr is not None else b""
         try:
+            twin = Salsa20.new(key, used).encrypt(m)
+        except Exception:      # noqa
+            twin = None
+        attr_ok = ctx.check(twin == ct, "nonce-attr:Salsa20", "a second cipher object given the exposed (library-chosen) nonce does not reproduce the ciphertext",
+                            lambda: w({"attribute": used.hex(), "ciphertext": hx(ct), "twin": hx(twin)}))
+        try:
             back = ciphers.salsa20_xor(key, used, ct)
         except Exception:      # noqa
             back = None
-        ctx.check(back == m, "nonce-attr:Salsa20", "a conforming peer given the exposed (library-chosen) nonce does not recover the message",
+        ctx.check(back == m, "spec:Salsa20:stream:ciphertext-differs" if attr_ok else "nonce-attr:Salsa20",
+                  "a conforming peer given the exposed (library-chosen) nonce does not recover the message",
                   lambda: w({"attribute": used.hex(), "ciphertext": hx(ct)}))
     try:
         pt = Salsa20.new(key, used).decrypt(ct)
@@ -1058,10 +1087,20 @@ def chacha_case(ctx, key, nonce, pos, m, path="model"):
         ctx.count("libchosen_total")
         used = bytes(attr) if attr is not None else b""
         try:
+            t = ChaCha20.new(key=key, nonce=used)
+            if pos is not None:
+                t.seek(pos)
+            twin = t.encrypt(m)
+        except Exception:      # noqa
+            twin = None
+        attr_ok = ctx.check(twin == ct, "nonce-attr:" + cname, "a second cipher object given the exposed (library-chosen) nonce does not reproduce the ciphertext",
+                            lambda: w({"attribute": used.hex(), "ciphertext": hx(ct), "twin": hx(twin)}))
+        try:
             back = ciphers.chacha20_xor(key, used, ct, off)
         except Exception:      # noqa
             back = None
-        ctx.check(back == m, "nonce-attr:" + cname, "a conforming peer given the exposed (library-chosen) nonce does not recover the message",
+        ctx.check(back == m, "spec:%s:stream:ciphertext-differs" % cname if attr_ok else "nonce-attr:" + cname,
+                  "a conforming peer given the exposed (library-chosen) nonce does not recover the message",
                   lambda: w({"attribute": used.hex(), "ciphertext": hx(ct)}))
     try:
         d = ChaCha20.new(key=key, nonce=used)
@@ -1157,7 +1196,18 @@ def ccp_case(ctx, key, nonce, parts, m, path, api):
             back, btag = ref(ct, True)
         except Exception:      # noqa
             back = btag = None
-        ctx.check(ct == exp_ct and tag == exp_tag and back == m and btag == tag, "nonce-attr:" + mode,
+        try:
+            t = mk(used)
+            for p in parts:
+                t.update(p)
+            twin = t.encrypt_and_digest(m)
+        except Exception:      # noqa
+            twin = None
+        attr_ok = ctx.check(twin == (ct, tag), "nonce-attr:" + mode,
+                            "a second cipher object given the exposed (library-chosen) nonce does not reproduce ciphertext and tag",
+                            lambda: w({"attribute": used.hex(), "ciphertext": hx(ct), "tag": tag.hex(), "twin": repr(twin)[:300]}))
+        ctx.check(ct == exp_ct and tag == exp_tag and back == m and btag == tag,
+                  "spec:%s:%s:ciphertext-differs" % (cname, mode) if attr_ok else "nonce-attr:" + mode,
                   "a conforming peer given the exposed (library-chosen) nonce does not recover the message / accept the tag",
                   lambda: w({"attribute": used.hex(), "ciphertext": hx(ct), "tag": tag.hex(), "peer_tag": hx(btag)}))
     try:
